@@ -315,12 +315,14 @@ def run_for(ctx, pid):
     ctx.assumptions = ["the hooked build/assign functions copy the two loops of Build/AssignWeights; the unhooked Build is compared with them on every model",
                        "inner map iteration orders of AssignWeights are sampled by repetition, not driven"]
     gc.replay_known(ctx)
-    n = 350 if ctx.tier == "quick" else 8000
+    n = 350 if ctx.tier == "quick" else (1500 if pid == "C06" else 8000)
     models = gen_models(ctx, n, pid)
     if pid == "C06":
         # the inner map iteration orders of AssignWeights can only be sampled: many repetitions per model
-        res = gc.run_graph(ctx, models, n_orders=8 if ctx.tier == "quick" else 16, repeat=40 if ctx.tier == "quick" else 300,
-                           order_repeat=4 if ctx.tier == "quick" else 10)
+        # (thorough: 1500 models x (12 orders x 6 + 150 unhooked builds); the 8000-model setting of the other graph
+        # checks exhausted memory here)
+        res = gc.run_graph(ctx, models, n_orders=8 if ctx.tier == "quick" else 12, repeat=40 if ctx.tier == "quick" else 150,
+                           order_repeat=4 if ctx.tier == "quick" else 6)
     else:
         res = gc.run_graph(ctx, models, n_orders=4 if ctx.tier == "quick" else 8, repeat=3 if ctx.tier == "quick" else 10)
     if pid == "C06":
